@@ -118,6 +118,7 @@ class Check:
             self.cov["samples"] = ["(no sample recorded)"]
         # /verif/evidence describes runs against /repo itself; runs against another tree (seeded changes: REPO_ROOT set) go to out/
         evdir = os.path.join(VERIF, "evidence") if os.environ.get("REPO_ROOT", "/repo") == "/repo" else os.path.join(VERIF, "out", "evidence_other_tree")
+        evdir = os.environ.get("GX_EVIDENCE_DIR", evdir)          # development runs that must not touch /verif/evidence
         os.makedirs(evdir, exist_ok=True)
         with open(os.path.join(evdir, f"{self.pid}.json"), "w") as f:
             json.dump(ev, f, indent=1, default=str)
